@@ -271,14 +271,19 @@ class ObjCrossRef:
         match_rule_name: the rule name which defines the text format of
             the reference. It is required to extract the split-attribute for
             locally defined scope providers.
+        parser(Parser): The parser of the model whose text contains this
+            cross-ref (`position` is relative to that parser's input).
     """
 
-    def __init__(self, obj_name, cls, position, scope_provider, match_rule_name):
+    def __init__(
+        self, obj_name, cls, position, scope_provider, match_rule_name, parser=None
+    ):
         self.obj_name = obj_name
         self.cls = cls
         self.position = position
         self.scope_provider = scope_provider
         self.match_rule_name = match_rule_name
+        self.parser = parser
 
 
 class RefRulePosition:
@@ -744,6 +749,7 @@ def parse_tree_to_objgraph(
                         position=node[0].position,
                         scope_provider=p,
                         match_rule_name=rn,
+                        parser=parser,
                     )
                     parser._crossrefs.append((model_obj, metaattr, value))
                     return model_obj
@@ -773,6 +779,7 @@ def parse_tree_to_objgraph(
                                 position=n.position,
                                 scope_provider=p,
                                 match_rule_name=rn,
+                                parser=parser,
                             )
 
                             parser._crossrefs.append((obj_attr, metaattr, value))
